@@ -92,8 +92,9 @@ class H3Ops:
                 # There are no entities in any of the rings.
                 return None
             else:
-                # get the kth ring
-                ring = h3.k_ring(search_geoid, current_k)
+                # get the kth ring; h3 hands back a set, which is visited in sorted order so that the first
+                # of several equally distant entities is the same one whatever the interpreter's hash seed
+                ring = sorted(h3.k_ring(search_geoid, current_k))
 
                 # get all entities in this ring
                 found = (
